@@ -647,7 +647,8 @@ EvMore(e, s) ==
                             ELSE FoldLeft(LAMBDA acc, li : IF ~Ok(acc) THEN acc ELSE
                                    LET Rr == Ev(e.r, RO([s EXCEPT !.doc = acc.doc, !.ctx = <<c>>])) IN
                                    IF ~Ok(Rr) THEN Rr
-                                   ELSE IF \E j \in DOMAIN Rr.ctx : Rr.ctx[j].in /\ Rr.ctx[j].p # Lc.ctx[li].p /\ IsPathPrefix(Rr.ctx[j].p, Lc.ctx[li].p) THEN Fail(acc, "unspec")   \* a value assigned into itself
+                                   \* a value assigned into itself (`.a = .`) is the value as it was; with several results the later ones are not decided
+                                   ELSE IF Len(Rr.ctx) > 1 /\ \E j \in DOMAIN Rr.ctx : Rr.ctx[j].in /\ Rr.ctx[j].p # Lc.ctx[li].p /\ IsPathPrefix(Rr.ctx[j].p, Lc.ctx[li].p) THEN Fail(acc, "unspec")
                                    ELSE FoldLeft(LAMBDA a2, rj : [a2 EXCEPT !.doc = IF Exists(a2.doc, Lc.ctx[li].p) THEN Replace(a2.doc, Lc.ctx[li].p, ValOf(a2.doc, rj)) ELSE a2.doc],
                                                  [acc EXCEPT !.doc = Rr.doc], Rr.ctx),
                                  [acc0 EXCEPT !.doc = Lc.doc], Upto(Len(Lc.ctx))),
@@ -876,9 +877,10 @@ EvExt(e, s) ==
               ELSE LET done == FoldLeft(LAMBDA acc, c : IF ~Ok(acc) THEN acc ELSE
                                  LET Vv == Ev(e.r, RO([s EXCEPT !.doc = acc.doc, !.ctx = <<c>>])) IN
                                  IF ~Ok(Vv) THEN Vv ELSE IF Len(Vv.ctx) # 1 THEN Fail(acc, "err")
-                                 ELSE IF Vv.ctx[1].in /\ c.in /\ IsPathPrefix(Vv.ctx[1].p, c.p \o [j \in DOMAIN pv.e |-> IF pv.e[j].k = "str" THEN PK(pv.e[j].s) ELSE PI(pv.e[j].n)])
-                                      THEN Fail(acc, "unspec")     \* a value assigned into itself
-                                 ELSE LET w == Ev([op |-> "ASSIGN", l |-> PathToExpr(pv), r |-> ELit(ValOf(Vv.doc, Vv.ctx[1])), update |-> FALSE], [s EXCEPT !.doc = Vv.doc, !.ctx = <<c>>]) IN
+                                 \* the value is handed to the assignment BY REFERENCE: where it is a node of the document, it is read after the
+                                 \* path has been created (`setpath(["a"]; .)` on {} gives {a: {a: null}}, exactly as `.a = .` does)
+                                 ELSE LET w == Ev([op |-> "ASSIGN", l |-> PathToExpr(pv), r |-> EVar("__setpath"), update |-> FALSE],
+                                                  [s EXCEPT !.doc = Vv.doc, !.ctx = <<c>>, !.env = EnvSet(s.env, "__setpath", <<Vv.ctx[1]>>)]) IN
                                       IF ~Ok(w) THEN w ELSE [acc EXCEPT !.doc = w.doc],
                                [s EXCEPT !.doc = P.doc], s.ctx)
                    IN IF ~Ok(done) THEN done ELSE IF \E i \in DOMAIN s.ctx : ~s.ctx[i].in THEN Fail(s, "unspec") ELSE [s EXCEPT !.doc = done.doc]
